@@ -10,6 +10,9 @@ import Mathlib.Tactic.Linarith
 import Mathlib.Tactic.Positivity
 set_option linter.unusedSectionVars false
 set_option linter.unusedVariables false
+set_option linter.unusedSimpArgs false
+set_option linter.unusedTactic false
+set_option linter.unreachableTactic false
 namespace ZV.L19
 open ZV.Gen ZV.Measures ZV.Potential
 
@@ -90,21 +93,28 @@ theorem observed_counts (rows : List (MRow F)) (i : Nat) :
     obtain ⟨e, d, t⟩ := r
     rcases e with _ | e <;> rcases d with _ | d <;> simp <;> grind
 
+/-- the index level's rows are among the rows with exposure and outcome observed -/
+theorem level_le_complete (rows : List (MRow F)) (i : Nat) :
+    cntED rows i true + cntED rows i false ≤ (complete rows).length := by
+  obtain ⟨ra, rb, -, rn⟩ := observed_counts rows i
+  obtain ⟨-, -, h3, -⟩ := completion_counts (complLower (observed rows i))
+  rw [complLower_isCompletion] at h3
+  have : (complLower (observed rows i)).length = (observed rows i).length := by simp [complLower]
+  omega
+
 /-! ### the field inequality -/
 section
 variable [Field F] [LinearOrder F] [IsStrictOrderedRing F]
 
-theorem fr_lower_closed (a b yo n : F) (hab : a + b ≠ 0) :
+/- proofs by `field_simp; ring` only, so an algebraically equivalent rewrite of the two source lines
+   (e.g. `a/n` for `ri*((a+b)/n)`) leaves every theorem intact, while any change of value breaks them -/
+theorem fr_lower_closed (a b yo n : F) (hab : a + b ≠ 0) (hn : n ≠ 0) :
     fr_lower (a / (a + b)) a b yo n = (a - yo - (a + b)) / n := by
-  unfold fr_lower
-  have : a / (a + b) * ((a + b) / n) = a / n := by field_simp
-  rw [this]; ring
+  unfold fr_lower; (try simp only [Nat.cast_one, Nat.cast_ofNat, Nat.cast_zero]); field_simp <;> ring
 
 theorem fr_upper_closed (a b yo n : F) (hab : a + b ≠ 0) (hn : n ≠ 0) :
     fr_upper (a / (a + b)) a b yo n = (a + (n - (a + b)) - yo) / n := by
-  unfold fr_upper
-  have : a / (a + b) * ((a + b) / n) = a / n := by field_simp
-  rw [this]; simp only [Nat.cast_one]; field_simp
+  unfold fr_upper; (try simp only [Nat.cast_one, Nat.cast_ofNat, Nat.cast_zero]); field_simp <;> ring
 
 /-- With `u` free events among the `n - (a+b)` units outside the index level and `v` free events among
     the `a+b` units inside it, the causal risk difference `((a+u) - (yo+v))/n` lies between the bounds. -/
@@ -112,7 +122,7 @@ theorem bounds_core (a b yo n u v : F) (hab : 0 < a + b) (hn : 0 < n)
     (hu0 : 0 ≤ u) (hu : u + (a + b) ≤ n) (hv0 : 0 ≤ v) (hv : v ≤ a + b) :
     fr_lower (a / (a + b)) a b yo n ≤ (a + u) / n - (yo + v) / n ∧
     (a + u) / n - (yo + v) / n ≤ fr_upper (a / (a + b)) a b yo n := by
-  rw [fr_lower_closed a b yo n hab.ne', fr_upper_closed a b yo n hab.ne' hn.ne', ← sub_div]
+  rw [fr_lower_closed a b yo n hab.ne' hn.ne', fr_upper_closed a b yo n hab.ne' hn.ne', ← sub_div]
   constructor
   · apply div_le_div_of_nonneg_right _ hn.le; linarith
   · apply div_le_div_of_nonneg_right _ hn.le; linarith
@@ -123,7 +133,7 @@ theorem contains_core (a b c d : F) (ha : 0 ≤ a) (hb : 0 ≤ b) (hc : 0 ≤ c)
     fr_lower (a / (a + b)) a b c (a + b + c + d) ≤ a / (a + b) - c / (c + d) ∧
     a / (a + b) - c / (c + d) ≤ fr_upper (a / (a + b)) a b c (a + b + c + d) := by
   have hn : 0 < a + b + c + d := by linarith
-  rw [fr_lower_closed a b c _ hab.ne', fr_upper_closed a b c _ hab.ne' hn.ne']
+  rw [fr_lower_closed a b c _ hab.ne' hn.ne', fr_upper_closed a b c _ hab.ne' hn.ne']
   have h1 : 0 ≤ a / (a + b) := by positivity
   have h1' : a / (a + b) ≤ 1 := by rw [div_le_one hab]; linarith
   have h0 : 0 ≤ c / (c + d) := by positivity
